@@ -62,3 +62,8 @@ Definition c04_filters_foreign_current : bool := true.
 (** C17: AddOperation's append + persist + index update form one critical section (true, fix:
     commit); false = pinned: only the append is atomic. *)
 Definition c17_atomic_current : bool := true.
+
+(** C16: the legacy emitter's fast path also requires that no event taken from the overflow
+    list is still waiting to be sent (true, fix: commit); false = pinned: a newer event could
+    overtake the held one. *)
+Definition c16_tracks_inflight_current : bool := true.
